@@ -1,5 +1,6 @@
 import Driver.Util
 import ClairModel.Model.Cpe
+import ClairModel.Model.CpeSpec
 
 /-
   Line-protocol driver of the CPE model (property C19).
@@ -63,8 +64,11 @@ def answer (ws : List String) : Option String :=
   | [op, h] =>
     -- (*WFN).UnmarshalText / Scan on the zero name: empty input leaves it alone
     if op == "unmarshal" || op == "scan" || op == "scanstr" then do
-      let s ← str? h
-      pure (if s.isEmpty then renderOpt (some (List.replicate 11 unsetValue)) else renderOpt (unbind s))
+      pure (renderOpt (unmarshalText (List.replicate 11 unsetValue) (← str? h)))
+    else if op == "punbindfs" then do pure (renderOpt (unbindFS (← str? h)))
+    else if op == "punbinduri" then do pure (renderOpt (unbindURI (← str? h)))
+    else if op == "mustunbind" then do pure (renderOpt (unbind (← str? h)))
+    else if op == "newvalue" || op == "pnewvalue" then do pure (if newValueOk (← str? h) then "ok" else "err")
     else none
   | "valid" :: toks => do
     let w ← wfn? toks
@@ -73,6 +77,13 @@ def answer (ws : List String) : Option String :=
   | "string" :: toks => do pure (hexStr (wfnString (← wfn? toks)))
   | "marshal" :: toks => do
     pure (match marshalText (← wfn? toks) with | none => "err" | some s => hexStr s)
+  | "sqlvalue" :: toks => do
+    pure (match marshalText (← wfn? toks) with | none => "err" | some s => hexStr s)
+  | "binduri" :: toks => do
+    -- the specification's bind_to_URI (the package has no URI binder): the Lean and the Go reading agree
+    pure (hexStr (ClairModel.CpeSpec.bindURI ((← wfn? toks).map fun a => (a.kind, a.v))))
+  | "unmarshal2" :: h :: toks => do pure (renderOpt (unmarshalText (← wfn? toks) (← str? h)))
+  | "scan2" :: h :: toks => do pure (renderOpt (unmarshalText (← wfn? toks) (← str? h)))
   | "cmp" :: toks => do
     let a ← wfn? (toks.take 11)
     let b ← wfn? (toks.drop 11)
